@@ -102,6 +102,7 @@ inductive Op where
   | setChar (i j : Int) (c : Byte)
   | trimSeqs (n : Int) (fromStart : Bool)
   | autoAlpha
+  | revcomp
 deriving Repr
 
 /-- the float threshold test of the cleaning functions: `cutoff = num/den` as `float64` -/
@@ -164,6 +165,7 @@ def stepOp (b : Bag) : Op → Bag × String
     | none => (b, "PANIC")
     | some r => (r.1, if r.2 then "err" else "ok")
   | .autoAlpha => ({ b with alphabet := autoAlphabet (b.rows.map (·.seq)) }, "ok")
+  | .revcomp => let r := reverseComplement b; (r.1, if r.2 then "err" else "ok")
 
 /-- run a history, collecting the states after every step -/
 def runOps : Bag → List Op → List (Bag × String)
